@@ -268,9 +268,7 @@ fn step_post<T: Flat + ?Sized, L: Flat + Length, const N: usize, const M: usize>
     cnt2: usize,
     f: &Fmt,
 ) -> Chain<M> {
-    // the bytes validate ...
-    assert!(FlexVec::<T, L>::validate(b).is_ok(), "C12/C13: bytes do not validate after the step");
-    // ... and re-map to the model sequence
+    // the bytes re-map to the model sequence (reference wf ==> validate() accepts: `accept` harnesses)
     let c2 = walk::<M>(b, len, f);
     assert!(c2.ok, "C12/C13: chain malformed after the step");
     assert!(c2.cnt == cnt2, "C12/C13: wrong number of items after the step");
@@ -350,9 +348,6 @@ fn start<'a, T: Flat + ?Sized, L: Flat + Length, const N: usize, const M: usize>
     kani::assume(off == 0);
     let b = sym_slice(len, f.align(), off, N);
     let pre: [u8; N] = snap::<N>(b);
-    if FlexVec::<T, L>::validate(b).is_err() {
-        return None;
-    }
     let c = walk::<M>(&pre, len, f);
     // reachable states satisfy the reference wf (re-established by every step harness); accepted ==> wf is checked
     // by the view harnesses
